@@ -27,6 +27,11 @@
 (* Row 5 lies on the segment of rows 1 and 2: exact zero-area triangles    *)
 (* with three distinct corners.                                            *)
 (*                                                                         *)
+(* Scope: meshes of a few faces (every pattern of duplicates, repeats and  *)
+(* degeneracy) and meshes of 17 to 22 faces (sorting routines behave       *)
+(* differently above 16 elements); split is judged for at most seven       *)
+(* face-connected components.                                              *)
+(*                                                                         *)
 (* Left unconstrained (the statement is silent): whether unreferenced      *)
 (* vertices survive merge_vertices / face masking / submesh; which slot    *)
 (* represents a merged group; whether a face with a non-finite corner      *)
@@ -64,7 +69,6 @@ BagEq(a, b) == Len(a) = Len(b) /\ \A x \in Range(a) \cup Range(b) : CountIn(a, x
 RECURSIVE Perms(_)                                                 \* enumerations of a small set
 Perms(S) == IF S = {} THEN {<<>>} ELSE UNION {{<<x>> \o q : q \in Perms(S \ {x})} : x \in S}
 Pick(ss, S) == LET o == SortSet(S) IN [k \in 1..Len(o) |-> ss[o[k]]]   \* sub-sequence at index set S
-Prefix(s, n) == [k \in 1..n |-> s[k]]
 Min2(a, b) == IF a <= b THEN a ELSE b
 Max2(a, b) == IF a <= b THEN b ELSE a
 Sort3(t) == LET lo == Min2(t[1], Min2(t[2], t[3]))  hi == Max2(t[1], Max2(t[2], t[3]))
